@@ -3,6 +3,7 @@ import Driver.Ctl
 import Driver.ClientMon
 import Driver.E2e
 import Driver.App
+import Driver.Conc
 /-
   ftpdriver: one line in, one line out.
 
@@ -20,7 +21,7 @@ def handleLine (line : String) : String :=
   | [lhs, impl] =>
     match lhs.splitOn " " with
     | op :: args =>
-      match (if op = "client" then clientOp args impl else if op = "e2e" then e2eOp args impl else if op = "app" then appOp args impl else (pureOp op args impl <|> ctlOp op args impl)) with
+      match (if op = "client" then clientOp args impl else if op = "e2e" then e2eOp args impl else if op = "app" then appOp args impl else if op = "conc" then concOp args impl else (pureOp op args impl <|> ctlOp op args impl)) with
       | some v =>
         let tags := ",".intercalate v.tags
         match v.viol with
